@@ -79,6 +79,8 @@ def _case(recipe, kmode, K, kseed, a, c, bc_mode, bc_seed, p_dir, pseed, tie=Non
         tie = None
     return {"grid": recipe, "kmode": kmode, "K": K, "kseed": int(kseed), "tie": tie,
             "contrast": int(contrast) if kmode.startswith("hetero") else 0,
+            "aavatsmark": bool(kmode.endswith("diag") and gg.k_orthogonal(recipe)
+                               and recipe.get("rigid") is None and (int(kseed) + int(pseed)) % 4 == 0),
             "a": [float(v) for v in a], "c": float(c), "bc_mode": bc_mode,
             "bc_seed": int(bc_seed), "p_dir": float(p_dir), "pseed": int(pseed)}
 
@@ -224,6 +226,12 @@ def check(case, mon):
     mon.nontrivial(nc >= 2)
 
     data = fs.flow_data(k, bc)
+    if case.get("aavatsmark"):
+        # documented option of Tpfa.discretize (half transmissibilities |K n| / d instead
+        # of n.K.d / d^2); it coincides with the default on K-orthogonal grids
+        data["Aavatsmark_transmissibilities"] = True
+        mon.klass("option:Aavatsmark_transmissibilities")
+        mon.count("aavatsmark_cases")
     discr = pp.Tpfa("flow")
     discr.discretize(g, data)
     mon.count("tpfa_discretizations")
